@@ -1642,8 +1642,14 @@ impl<'a, const C: usize, const R: usize, T: 'a + Copy + std::fmt::Debug> Layout<
                 // not. As another example, tap-dance and tap-hold will repeat the inner action and
                 // not the outer (tap-dance|hold) but multi will repeat the entire outer multi
                 // action.
-                if let Some(ac) = self.rpt_action {
+                // Take the action while repeating it: if the repeated action itself contains a
+                // repeat (e.g. `(multi rpt-any x)`), the nested repeat finds nothing to do
+                // instead of recursing without bound.
+                if let Some(ac) = self.rpt_action.take() {
                     self.do_action(ac, coord, delay, is_oneshot, &mut std::iter::empty());
+                    if self.rpt_action.is_none() {
+                        self.rpt_action = Some(ac);
+                    }
                 }
             }
             HoldTap(HoldTapAction {
